@@ -425,6 +425,31 @@ func (f *frame) pureCall(in *ssa.Call) {
 			x.errorf("ncalls needs a string literal")
 			setT("0", "0")
 			return
+		case "held":
+			// held("mu"): a declared monitor with that mutex field is held on this path
+			// (by this goroutine, acquired in this function and not yet released)
+			res := "false"
+			if c, ok := in.Call.Args[0].(*ssa.Const); ok && c.Value != nil {
+				mv := f.mem[0]
+				for {
+					pv, ok := mv.(pureView)
+					if !ok {
+						break
+					}
+					mv = pv.inner
+				}
+				if sv, ok := mv.(stateView); ok && sv.st != nil {
+					for _, h := range sv.st.held {
+						if h.mon.Mu == constant.StringVal(c.Value) {
+							res = "true"
+						}
+					}
+				}
+			} else {
+				x.errorf("held needs a string literal")
+			}
+			setT(res, res)
+			return
 		case "isstatus":
 			setT(x.isStatus(args[0][0].T), x.isStatus(args[0][1].T))
 			return
